@@ -162,23 +162,51 @@ theorem genExportPickle_eq (env : Env) (cwd : Path) (m : List (String × String)
     w_run
   · simp only [Fp.isStr, Fp.isPath, Fp.isStrOrPath, ↓reduceIte, Bool.false_or, Bool.false_eq_true, Bool.or_self]
 
-/-- `export_landmark_file` -/
-theorem genExportLandmarkFile_eq (env : Env) (cwd : Path) (m : List (String × String)) (obj : ExObj) (fp : Fp)
-    (ext : OStr) (ow : Bool) :
-    genExportLandmarkFile env cwd m obj fp ext ow = exportLandmarkFileSpec env cwd m obj fp ext ow := by
-  funext fs
-  unfold genExportLandmarkFile exportLandmarkFileSpec
-  simp only [genExport_eq, genNormalizeExtension_eq, W.bind_pure_unit, W.bind_pure]
-  cases hn : normalizeExt ext with
-  | error x => simp [W.bind_run]
-  | ok e =>
-    simp only [W.bind_run, W.lift_run, W.tryW_run, ExObj.nPoints]
-    cases hp : obj.hasNPoints with
-    | true => simp
-    | false =>
-      by_cases h1 : e.isSome = true <;> by_cases h2 : e = ostr ".ljson" <;> by_cases h3 : fp.isStrOrPath = true <;>
-        by_cases h4 : fp.toPath.suffix = ostr ".ljson" <;>
-        simp [h1, h2, h3, h4, W.bind_run, W.tryW_run, W.lift_run, truthy_bool]
+set_option hygiene false in
+/-- the part of `export_landmark_file` from `_normalize_extension` on (goal: `… fs = exportLandmarkFileSpecCoded … fs`):
+along the decisions of the specification -/
+macro "lm_coded" : tactic => `(tactic|
+  (unfold exportLandmarkFileSpecCoded
+   cases hn : normalizeExt ext with
+   | error x => simp [W.bind_run, hn]
+   | ok e =>
+     simp only [W.bind_run, W.lift_run, W.tryW_run, ExObj.nPoints, hn]
+     cases hp : obj.hasNPoints with
+     | true => simp
+     | false =>
+       by_cases h1 : e.isSome = true <;> by_cases h2 : e = ostr ".ljson" <;> by_cases h3 : fp.isStrOrPath = true <;>
+         by_cases h4 : fp.toPath.suffix = ostr ".ljson" <;>
+         first
+         | (simp [h1, h2, h3, h4, W.bind_run, W.tryW_run, W.lift_run, truthy_bool]; done)
+         | simp_all [W.bind_run, W.tryW_run, W.lift_run, truthy_bool]))
+
+/-- `export_landmark_file`: the translation is one of the two documented variants — the code as it stood (dictionary
+check before the overwrite guard: `guardFirst = false`) or the repaired code of
+notes/fixes/C16-landmark-dict-guard-first.diff (`guardFirst = true`).  Which one is decided by the source text. -/
+theorem genExportLandmarkFile_eq : ∃ guardFirst : Bool, ∀ (env : Env) (cwd : Path) (m : List (String × String))
+    (obj : ExObj) (fp : Fp) (ext : OStr) (ow : Bool),
+    genExportLandmarkFile env cwd m obj fp ext ow = exportLandmarkFileSpecV guardFirst env cwd m obj fp ext ow := by
+  first
+  | refine ⟨true, ?_⟩
+    intro env cwd m obj fp ext ow
+    funext fs
+    unfold genExportLandmarkFile exportLandmarkFileSpecV exportLandmarkFileSpec
+    simp only [genExport_eq, genNormalizeExtension_eq, genValidateFilepath_eq, W.bind_pure_unit, W.bind_pure, ↓reduceIte]
+    by_cases h0 : fp.isStrOrPath = true
+    · simp only [h0, ↓reduceIte, W.bind_run]
+      rcases hv : validateFilepathSpec env cwd fp.toPath ow fs with ⟨x | r, fs'⟩
+      · rfl
+      · simp only
+        generalize fs' = fs
+        lm_coded
+    · simp only [h0, Bool.false_eq_true, ↓reduceIte]
+      lm_coded
+  | refine ⟨false, ?_⟩
+    intro env cwd m obj fp ext ow
+    funext fs
+    unfold genExportLandmarkFile exportLandmarkFileSpecV
+    simp only [genExport_eq, genNormalizeExtension_eq, W.bind_pure_unit, W.bind_pure, Bool.false_eq_true, ↓reduceIte]
+    lm_coded
 
 /-- `export_image` -/
 theorem genExportImage_eq (env : Env) (cwd : Path) (m : List (String × String)) (obj : ExObj) (fp : Fp)
